@@ -143,6 +143,26 @@ def run_once(doc, fmt, workdir, tmpdir, name, present, fault, n_writes, kind="os
         shutil.move = real_move
         tempfile.tempdir = real_tempdir
         os.chdir(cwd)
+    if exc is not None:
+        # "and nowhere else", a moment later: once the caller lets go of the exception, nothing the failed call left behind may
+        # still own a file descriptor. A file opened now receives the lowest free descriptor number; if a stream of the failed
+        # call is still alive and believes that number is its own, its finaliser writes into / closes this file.
+        import gc
+        spath = os.path.join(os.path.dirname(workdir), "sentinel.bin")
+        sent = open(spath, "wb", buffering=0)
+        exc.__traceback__ = None
+        gc.collect()
+        try:
+            sent.write(b"sentinel")
+            sent.close()
+            intact = open(spath, "rb").read() == b"sentinel"
+        except OSError:
+            intact = False
+        try:
+            os.remove(spath)
+        except OSError:
+            pass
+        exc.stale_descriptor = not intact
     return before, snapshot(workdir), sorted(os.listdir(tmpdir)), exc, plan["calls"]
 
 
@@ -404,6 +424,10 @@ def run(ctx, use_model=True):
                                 elif got is None or (fmt == "rdf" and len(got) == 0 and len(expected_bytes) > 0):
                                     fails.append(Failure("oracle", None, "destination missing or empty after a successful write", case))
                             else:
+                                if getattr(exc, "stale_descriptor", False):
+                                    fails.append(Failure("oracle", None, "after a failure at step %s the call left a stream behind that still "
+                                                         "uses a file descriptor it has given back: a file opened afterwards was written to / "
+                                                         "closed by it" % (fault,), case))
                                 if not isinstance(exc, BOOMS[kind]):
                                     fails.append(Failure("oracle", None, "injected failure at step %s was swallowed (%r)" % (fault, exc), case))
                                 if got != old:
@@ -524,6 +548,8 @@ def replay(ctx, case):
             fails.append(Failure("oracle", case.get("signature"), "temporary file left behind", case))
         if case["fault"] is not None and after.get(key) != before.get(key):
             fails.append(Failure("oracle", case.get("signature"), "destination changed by a failed write", case))
+        if getattr(exc, "stale_descriptor", False):
+            fails.append(Failure("oracle", case.get("signature"), "a stream of the failed call still uses a descriptor it gave back", case))
         if case["fault"] is None and key not in after:
             fails.append(Failure("oracle", case.get("signature"), "nothing written to the named file", case))
         if [k for k in after if k not in before and k != key]:
